@@ -28,7 +28,11 @@ META = {
 
 def plan(tier, seed):
     q = tier == "quick"
-    return [{"kind": "agree", "i": i, "count": 60 if q else 480} for i in range(32)]
+    specs = [{"kind": "agree", "i": i, "count": 60 if q else 480} for i in range(32)]
+    # volume for the relations between the plain solvers alone (thl <= lca, = when transfers are forbidden, exh = thl):
+    # small inputs, finite transfer costs of every size against full-loss costs of every size
+    specs += [{"kind": "plain", "i": i, "count": 600 if q else 5000} for i in range(16)]
+    return specs
 
 
 def min_of(algo, B):
@@ -71,7 +75,7 @@ def relations(mins, single_family, hgt_inf, small):
 
 
 @skippable
-def check_case(ctx, case):
+def check_case(ctx, case, plain_only=False):
     single = case.get("single_family", False)
     B = bridge.Built(case)
     P = B.plain_input()
@@ -81,7 +85,7 @@ def check_case(ctx, case):
         ctx.count("evaluations")
         if exc:
             ctx.viol("C10.total", dict(case, algo=algo), f"{algo} raised: {exc}")
-    for algo in ("base_spfs", "ext_spfs", "base_uspfs", "superdtl"):
+    for algo in () if plain_only else ("base_spfs", "ext_spfs", "base_uspfs", "superdtl"):
         mins[algo], exc = min_of(algo, B)
         ctx.count("evaluations")
         if exc:
@@ -122,6 +126,23 @@ def canaries(ctx):
 
 
 def run(ctx, spec):
+    if spec["kind"] == "plain":
+        rng = ctx.rng("plain")
+        for k in range(spec["count"]):
+            Gn, Sn, lm = gen.random_input(rng, 5 if k % 3 else 7, 6, min_obj=3, min_sp=2)
+            cost = gen.random_cost(rng, plain=True)
+            if k % 2 and cost["hgt"] != "inf":
+                # transfers priced between one and three full losses, losses not free
+                cost = dict(cost, floss=rng.randint(1, 4))
+                cost["hgt"] = rng.randint(cost["floss"], 3 * cost["floss"] + 1)
+                if not dtl.coherent({k2: (INF if v == "inf" else v) for k2, v in cost.items()}):
+                    cost["dup"] = cost["spe"] + 2 * cost["sloss"]
+            case = {"kind": "agree", "G": Gn, "S": Sn, "leafmap": lm, "costs": cost, "syn": gen.shared_family_syntenies(list(lm)), "single_family": True, "plain_only": True}
+            ctx.count("plain_cases")
+            check_case(ctx, case, plain_only=True)
+            if ctx.too_many():
+                return
+        return
     rng = ctx.rng("agree")
     for k in range(spec["count"]):
         small = k % 3 == 0
@@ -151,4 +172,4 @@ def run(ctx, spec):
 
 
 def replay(ctx, case):
-    check_case(ctx, {k: v for k, v in case.items() if k not in ("algo", "minima")})
+    check_case(ctx, {k: v for k, v in case.items() if k not in ("algo", "minima")}, plain_only=case.get("plain_only", False))
